@@ -38,6 +38,12 @@ func (df *DataFrame) Resample(datetimeColumn string, freq string, aggFunc func([
 		return nil, fmt.Errorf("datetime column '%s' does not exist", datetimeColumn)
 	}
 
+	switch freq {
+	case "Y", "M", "D", "H", "T", "S":
+	default:
+		return nil, fmt.Errorf("unsupported frequency '%s' (supported: Y, M, D, H, T, S)", freq)
+	}
+
 	resampled := NewDataFrame()
 	resampled.Columns[datetimeColumn] = &Column[any]{
 		Name: datetimeColumn,
@@ -57,7 +63,10 @@ func (df *DataFrame) Resample(datetimeColumn string, freq string, aggFunc func([
 	grouped := make(map[time.Time]map[string][]any)
 	for i := 0; i < df.Nrows(); i++ {
 		row, _ := df.Row(i)
-		datetime := row[datetimeColumn].(time.Time)
+		datetime, isTime := row[datetimeColumn].(time.Time)
+		if !isTime {
+			return nil, fmt.Errorf("value '%v' in column '%s' (row %d) is not a time.Time", row[datetimeColumn], datetimeColumn, i)
+		}
 		bucket := truncateToFrequency(datetime, freq)
 		if _, exists := grouped[bucket]; !exists {
 			grouped[bucket] = make(map[string][]any)
